@@ -56,11 +56,18 @@ def lake_build(targets):
     return r.returncode == 0, r.stdout
 
 
-def build_harness():
+def build_harness(race=False):
     exe = os.path.join(BIN, "pwharness")
     shutil.copyfile(os.path.join(REPO, "go.sum"), os.path.join(HARNESS_SRC, "go.sum"))
     r = sh(["go", "build", "-tags", "verif", "-o", exe, "."], cwd=HARNESS_SRC, env=GOENV)
+    if r.returncode == 0 and race:
+        # the race detector needs cgo
+        r = sh(["go", "build", "-race", "-tags", "verif", "-o", exe + "-race", "."], cwd=HARNESS_SRC,
+               env=dict(GOENV, CGO_ENABLED="1"))
     return r.returncode == 0, r.stdout
+
+
+RACE = False
 
 
 FORBIDDEN = re.compile(r"\bsorry\b|\badmit\b|^\s*axiom\s|native_decide|bv_decide|implemented_by|\bunsafe\s|maxHeartbeats\s+0")
@@ -133,12 +140,13 @@ def audit_axioms(module, theorems):
 def run_impl(case_lines, tag):
     """Run case lines through the real code in child processes (crash isolated).
     Returns list of 'case || result' lines; a crash yields 'case || out= ev= end=crash panic=<hex>'."""
-    exe = os.path.join(BIN, "pwharness")
+    exe = os.path.join(BIN, "pwharness-race" if RACE else "pwharness")
     results = []
     pending = list(case_lines)
     while pending:
         p = subprocess.Popen([exe, "run"], stdin=subprocess.PIPE, stdout=subprocess.PIPE, stderr=subprocess.PIPE,
-                             text=True, env=dict(GOENV, GOMEMLIMIT="6GiB", GOMAXPROCS="4"))
+                             text=True, env=dict(GOENV, GOMEMLIMIT="6GiB", GOMAXPROCS="4",
+                                                 GORACE="halt_on_error=1 exitcode=66"))
         out, err = p.communicate("\n".join(pending) + "\n")
         done = 0
         started = None
@@ -153,7 +161,7 @@ def run_impl(case_lines, tag):
             break
         # the child died while running pending[done]
         crashed = pending[done]
-        m = re.search(r"(panic: .*|fatal error: .*)", err)
+        m = re.search(r"(WARNING: DATA RACE|panic: .*|fatal error: .*)", err)
         what = (m.group(1) if m else "exit %s" % p.returncode)[:300]
         frames = re.findall(r"psql-wire[^\s]*\.([\w\.\(\)\*]+)\(", err)[:4]
         results.append("%s || out= ev= end=crash panic=%s" % (crashed, (what + " @ " + ",".join(frames)).encode().hex()))
